@@ -60,7 +60,8 @@ theorem code_rounding_set_is_error_bounds (mode : RMode) (b p : Nat) (neg : Bool
 
 /-- the regenerated tables at unlimited precision (`prec0`), non-zero float: `Zero`, `HalfAway`,
     `HalfEven` return `(0, 0, true, true)` as the trait documents; `Away`, `Up`, `Down` evaluate
-    `f.ulp()`, which panics (the `panicUnlimited` switch is exactly this) -/
+    `f.ulp()`, which panics (a defect of those `impl`s against the trait documentation; since round 6
+    not reachable through `simplest_from_float`, see `entry_is_skeleton`) -/
 theorem error_bounds_unlimited (mode : RMode) (neg odd : Bool) :
     (usesUlp (genBounds mode true false neg odd) = true ↔
       (mode = .away ∨ mode = .up ∨ mode = .down)) ∧
@@ -70,29 +71,21 @@ theorem error_bounds_unlimited (mode : RMode) (neg odd : Bool) :
     simp [usesUlp, genBounds, error_bounds_Zero, error_bounds_Away, error_bounds_Up,
       error_bounds_Down, error_bounds_HalfAway, error_bounds_HalfEven]
 
-/-- **the code path of the model at unlimited precision is the regenerated table**: a panic iff the
-    table evaluates `f.ulp()`, else the number itself (`[f − 0, f + 0]`, both ends included) -/
-theorem code_unlimited_is_error_bounds (simpler : Q → Q → Bool) (mode : RMode) (b : Nat)
-    (signif exp : Int) (hs : signif ≠ 0) (odd : Bool) :
-    simplestFromFBig Quirks.code simpler mode b signif exp 0 =
-      if usesUlp (genBounds mode true false (decide (signif < 0)) odd) then
-        .error .unlimitedPrecision
-      else (reduce (scaleQ signif b exp)).map some := by
-  unfold simplestFromFBig
-  simp only [if_neg hs, if_true, show Quirks.code.panicUnlimited = true from rfl, true_and]
-  have h := (error_bounds_unlimited mode (decide (signif < 0)) odd).1
-  by_cases hm : mode = .away ∨ mode = .up ∨ mode = .down
-  · rw [if_pos hm, if_pos (h.2 hm)]
-  · rw [if_neg hm, if_neg (fun hu => hm (h.1 hu))]
-
 /-- **the early returns of `simplest_from_float`** (regenerated skeleton): infinite ⇒ `None`,
-    zero ⇒ `Some(ZERO)`, otherwise the interval path -/
+    zero ⇒ `Some(ZERO)`, unlimited precision ⇒ the exact value `Self::try_from(f.clone())` (the reduced
+    fraction of `signif · b^exp`) WITHOUT asking `R::error_bounds` — so neither the `f.ulp()` panic of
+    `ErrorBounds for Away/Up/Down` (`error_bounds_unlimited`) nor the rounding of `f ± 0` to
+    `Context::max(0, 0 + 1)` digits can be reached —, otherwise the interval path.  If the early
+    return for `f.precision() == 0` disappears from the source the regenerated skeleton has no path 3
+    and this theorem stops checking. -/
 theorem entry_is_skeleton (k : Quirks) (simpler : Q → Q → Bool) (mode : RMode) (b : Nat)
     (signif exp : Int) (p : Nat) :
     rbigSimplestFromFloat k simpler mode b signif exp p =
-      match simplest_from_float_path (fbigIsInfinite signif exp) (signif == 0 && exp == 0) with
+      match simplest_from_float_path (fbigIsInfinite signif exp) (signif == 0 && exp == 0)
+          (p == 0) with
       | 0 => .ok (some none)
       | 1 => .ok (some (some Q.zero))
+      | 3 => (reduce (scaleQ signif b exp)).map (fun r => some (some r))
       | _ => (simplestFromFBig k simpler mode b signif exp p).map (Option.map some) := by
   unfold rbigSimplestFromFloat simplest_from_float_path fbigIsInfinite
   by_cases hs : signif = 0
@@ -100,7 +93,78 @@ theorem entry_is_skeleton (k : Quirks) (simpler : Q → Q → Bool) (mode : RMod
     by_cases he : exp = 0
     · subst he; simp [simplestFromFBig, Except.map]
     · simp [he]
-  · simp [hs]
+  · by_cases hp : p = 0
+    · subst hp
+      have h1 : (signif == 0) = false := by simp [hs]
+      have h0 : simplestFromFBig k simpler mode b signif exp 0 =
+          (reduce (scaleQ signif b exp)).map some := by
+        unfold simplestFromFBig
+        simp only [if_neg hs, if_true]
+      rw [h0]
+      simp only [h1, Bool.false_and, Bool.false_eq_true, if_false, beq_self_eq_true, if_true]
+      cases reduce (scaleQ signif b exp) <;> rfl
+    · simp [hs, hp]
+
+/-- **the regenerated skeleton returns the exact value at unlimited precision** (path 3, for a finite
+    non-zero float), and that is what the model does there for every mode and every switch setting.
+    The first conjunct is false for a `simplest_from_float` without the early return
+    `if f.precision() == 0 { return Some(Self::try_from(f.clone()).unwrap()) }` (the /repo HEAD 164990d
+    text, whose result at precision 0 was the float rounded to one digit, or a panic). -/
+theorem unlimited_path_is_exact (k : Quirks) (simpler : Q → Q → Bool) (mode : RMode) (b : Nat)
+    (signif exp : Int) (hs : signif ≠ 0) :
+    simplest_from_float_path false false true = 3 ∧
+    rbigSimplestFromFloat k simpler mode b signif exp 0 =
+      (reduce (scaleQ signif b exp)).map (fun r => some (some r)) := by
+  refine ⟨rfl, ?_⟩
+  have h := entry_is_skeleton k simpler mode b signif exp 0
+  have h1 : (signif == 0) = false := by simp [hs]
+  have hinf : fbigIsInfinite signif exp = false := by simp [fbigIsInfinite, hs]
+  rw [h, hinf, h1]
+  rfl
+
+-- ------------------------------------------------------------------ error_bounds called directly (op `eb.bounds`)
+
+/-- a width in units of `b^(e−1)/2` as an exact value (what the driver prints after `reduce`) -/
+def widthQ (b : Nat) (e : Int) (w : Int) : Q :=
+  ⟨(scaleQ w b (e - 1)).num, (scaleQ w b (e - 1)).den * 2⟩
+
+/-- **`error_bounds` as driven (`errorBoundsFBig`, code side) IS the regenerated table**, limited
+    precision, every mode / base / float: `L` and `R` are the widths the table of float/src/round.rs
+    names (`ZERO`, `f.ulp()`, `half_ulp`), the flags are the table's flags — for positive AND negative
+    floats (the magnitude orientation of `roundingSet` is undone exactly). -/
+theorem error_bounds_model_is_tables (mode : RMode) (b : Nat) (signif exp : Int) (p : Nat)
+    (hp : p ≠ 0) (hn : ¬ digitsB b (signif.natAbs + 1) signif.natAbs > p) :
+    errorBoundsFBig Quirks.code true mode b signif exp p =
+      (let t := genBounds mode false false (decide (signif < 0)) (decide (signif.natAbs % 2 = 1))
+       let e : Int := exp - (p - digitsB b (signif.natAbs + 1) signif.natAbs : Nat)
+       .ok (some (widthQ b e (widthUnits b t.1), widthQ b e (widthUnits b t.2.1), t.2.2.1, t.2.2.2))) := by
+  unfold errorBoundsFBig
+  simp only [if_neg hp, if_neg hn, code_rounding_set_is_error_bounds, magnitudeSet, widthQ]
+  by_cases hneg : signif < 0
+  · simp only [hneg, decide_true, if_true, sub_sub_cancel, add_sub_cancel_left]
+  · simp only [hneg, decide_false, Bool.false_eq_true, if_false, sub_sub_cancel, add_sub_cancel_left]
+
+/-- … and at unlimited precision: a panic iff the regenerated table evaluates `f.ulp()`
+    (`Away`, `Up`, `Down`: recorded finding), else `(ZERO, ZERO, true, true)`; the REQUIRED result is
+    `(ZERO, ZERO, true, true)` for every mode, as the trait documents. -/
+theorem error_bounds_model_unlimited (mode : RMode) (b : Nat) (signif exp : Int) (odd : Bool) :
+    errorBoundsFBig Quirks.code true mode b signif exp 0 =
+      (if usesUlp (genBounds mode true false (decide (signif < 0)) odd) then
+        .error .unlimitedPrecision
+      else .ok (some (Q.zero, Q.zero, true, true))) ∧
+    errorBoundsFBig Quirks.none false mode b signif exp 0 = .ok (some (Q.zero, Q.zero, true, true)) := by
+  unfold errorBoundsFBig
+  simp only [if_true, true_and, Bool.false_eq_true, false_and, if_false, and_true]
+  have h := (error_bounds_unlimited mode (decide (signif < 0)) odd).1
+  by_cases hm : mode = .away ∨ mode = .up ∨ mode = .down
+  · rw [if_pos hm, if_pos (h.2 hm)]
+  · rw [if_neg hm, if_neg (fun hu => hm (h.1 hu))]
+
+-- non-vacuity: HalfAway, base 3, the float −1 at precision 2 (the `eb.bounds` witness of corpus/C18)
+example : ¬ digitsB 3 (1 + 1) 1 > 2 ∧
+    errorBoundsFBig Quirks.code true .halfAway 3 (-1) 0 2 = .ok (some (⟨4, 18⟩, ⟨4, 18⟩, false, true)) ∧
+    errorBoundsFBig Quirks.none false .halfAway 3 (-1) 0 2 = .ok (some (⟨3, 18⟩, ⟨1, 18⟩, false, true)) := by
+  decide
 
 /-- **the end-point selection** of the model (`pickSimplest`) is the regenerated one: left first,
     then right, each only if included and simpler -/
